@@ -1,5 +1,7 @@
 (** C18 — the definitions regenerated from the source (gen/GenC18.v) are the model's, the constants the
-    code holds today satisfy the side conditions of the theorems, and the witnesses of the refuted clauses. *)
+    code holds today satisfy the side conditions of the theorems, and the witnesses of the refuted clauses.
+    Since leaspy 6d6bb6f the precision before the loop is [max(rounding_options)] = 3 ([tie_precision_init]):
+    the choice is total and the former F10 family (spacing < 0.001 -> round(None)) runs ([min_spacing_runs]). *)
 From Coq Require Import ZArith QArith Qround Qabs Bool List String Lia Lqa.
 From Leaspy Require Import Base.QAux Api.Simulate Api.SimulateProofs.
 From LeaspyGen Require Import GenC18.
@@ -15,8 +17,13 @@ Proof. split; reflexivity. Qed.
 Lemma tie_final : gen_random_final = random_final.
 Proof. reflexivity. Qed.
 
-Lemma tie_precision ms : gen_precision ms = precision_of gen_rounding_options ms.
+Lemma tie_precision ms : gen_precision ms = precision_of gen_rounding_options gen_precision_init ms.
 Proof. reflexivity. Qed.
+
+(** the value before the loop is the largest key of the options, i.e. the finest precision, 3 decimals
+    (false of the code before 6d6bb6f, where it was [None]) *)
+Lemma tie_precision_init : gen_precision_init = max_key gen_rounding_options /\ gen_precision_init = Some 3%Z.
+Proof. split; reflexivity. Qed.
 
 Lemma tie_beta mu v :
   beta_params mu v = if Qeq_bool v 0 then None else Some (gen_alpha mu v, gen_beta mu v).
@@ -39,20 +46,43 @@ Lemma tie_options :
   Qabs (gen_default_spacing - (1 # 365)) <= 1 # 10 ^ 18.
 Proof. vm_compute. repeat split; first [reflexivity | discriminate]. Qed.
 
-Lemma default_precision : precision_of gen_rounding_options gen_default_spacing = Some 3%Z.
+Lemma default_precision : precision_of gen_rounding_options gen_precision_init gen_default_spacing = Some 3%Z.
 Proof. reflexivity. Qed.
 
 (** rounding comes first, the first of several visits at one rounded age is the one kept *)
 Lemma tie_order : gen_round_before_dedup = true /\ gen_keep_first = true.
 Proof. split; reflexivity. Qed.
 
-(** no precision is found exactly below the smallest threshold *)
-Lemma precision_none_gen ms :
-  precision_of gen_rounding_options ms = None <-> ms < (1152921504606847 # 1152921504606846976).
+(** no option fits exactly below the smallest threshold (0.001 as a float) ... *)
+Lemma no_option_fits_gen ms :
+  Forall (fun pv => ms < snd pv) gen_rounding_options <-> ms < (1152921504606847 # 1152921504606846976).
 Proof.
-  rewrite precision_none. unfold gen_rounding_options. split.
+  unfold gen_rounding_options. split.
   - intros H. repeat (inversion H as [|? ? ? H']; subst; clear H; rename H' into H); simpl in *. assumption.
   - intros H. repeat constructor; simpl; lra.
+Qed.
+
+(** ... and then the ages are rounded at the finest precision *)
+Lemma precision_finest_gen ms :
+  ms < (1152921504606847 # 1152921504606846976) -> precision_of gen_rounding_options gen_precision_init ms = Some 3%Z.
+Proof. intros H. apply no_option_fits_gen in H. now rewrite (precision_fallback _ _ _ H). Qed.
+
+(** the choice is total: every spacing (whatever its sign or size) gets a precision in 0..3 *)
+Lemma precision_total_gen ms :
+  exists p, precision_of gen_rounding_options gen_precision_init ms = Some p /\ (0 <= p <= 3)%Z.
+Proof.
+  change gen_precision_init with (Some 3%Z).
+  destruct (precision_total gen_rounding_options 3 ms) as (p & E & H). exists p. split; [exact E|].
+  destruct H as [->|H]; [lia|]. simpl in H. lia.
+Qed.
+
+Lemma precision_some_gen ms p :
+  precision_of gen_rounding_options gen_precision_init ms = Some p ->
+  (exists l1 v l2, gen_rounding_options = (l1 ++ (p, v) :: l2)%list /\ v <= ms /\ Forall (fun pv => ms < snd pv) l1) \/
+  (p = 3%Z /\ ms < (1152921504606847 # 1152921504606846976)).
+Proof.
+  intros H. apply precision_some in H. destruct H as [H|[E H]]; [now left | right].
+  split; [change gen_precision_init with (Some 3%Z) in E; congruence | now apply no_option_fits_gen].
 Qed.
 
 (* ------------------------------------------------------------------------------------------ *)
@@ -68,42 +98,66 @@ Definition random_design (n : pyval) (extra : dict) : design :=
 Definition table_design (f : frame) : design :=
   {| d_features := two_features; d_visit_type := Some VtDataframe; d_params := [("df_visits", VFrame f)] |}.
 Definition shape21 := {| dimension := 2; source_dimension := 1 |}.
-Definition sim := simulate_outcome gen_rounding_options gen_default_spacing.
+Definition sim := simulate_outcome gen_rounding_options gen_precision_init gen_default_spacing.
 Definition accepted (d : design) : Prop := exists ps, construct d = Ok ps.
 
-(** non-vacuity: an ordinary design is accepted and runs *)
+(** non-vacuity: an ordinary design is accepted and runs — also with a spacing below every option (0.0005, 0) *)
 Example good_design_runs :
   accepted (random_design (VInt 5) [("min_spacing_between_visits", VFloat (1 # 100))]) /\
   sim shape21 (random_design (VInt 5) [("min_spacing_between_visits", VFloat (1 # 100))]) = Ok tt /\
   sim shape21 (random_design (VInt 5) []) = Ok tt /\
   sim shape21 (table_design {| has_id := true; has_time := true;
-                               rows := [(IdStr "a", Some 50); (IdStr "b", Some 51); (IdStr "a", Some 52)] |}) = Ok tt.
+                               rows := [(IdStr "a", Some 50); (IdStr "b", Some 51); (IdStr "a", Some 52)] |}) = Ok tt /\
+  sim shape21 (random_design (VInt 5) [("min_spacing_between_visits", VFloat (1 # 2000))]) = Ok tt /\
+  sim shape21 (random_design (VInt 5) [("min_spacing_between_visits", VInt 0)]) = Ok tt.
 Proof. split; [eexists; reflexivity|]. repeat split; reflexivity. Qed.
 
-(** F10: min_spacing_between_visits = 0.0005 (also 0) passes validation, no precision is found, round(None) raises *)
-Lemma min_spacing_refuted :
-  exists d, accepted d /\ sim shape21 d = Crash /\
-            lookup "min_spacing_between_visits" (d_params d) = Some (VFloat (1 # 2000)).
-Proof.
-  exists (random_design (VInt 5) [("min_spacing_between_visits", VFloat (1 # 2000))]).
-  split; [eexists; reflexivity|]. split; reflexivity.
-Qed.
-
-Lemma min_spacing_family (ms : Q) :
-  0 <= ms -> ms < (1152921504606847 # 1152921504606846976) ->
+(** the former F10 family (repaired by leaspy 6d6bb6f): every spacing >= 0 — in particular those in [0, 0.001[, for which
+    no option fits — is accepted by the constructor AND the run completes, with the ages rounded to 3 decimals *)
+Lemma min_spacing_runs (ms : Q) :
+  0 <= ms ->
   accepted (random_design (VInt 5) [("min_spacing_between_visits", VFloat ms)]) /\
-  sim shape21 (random_design (VInt 5) [("min_spacing_between_visits", VFloat ms)]) = Crash.
+  sim shape21 (random_design (VInt 5) [("min_spacing_between_visits", VFloat ms)]) = Ok tt /\
+  (ms < (1152921504606847 # 1152921504606846976) -> gen_precision ms = Some 3%Z).
 Proof.
-  intros H0 H1.
+  intros H0.
   assert (E : Qlt_bool ms 0 = false).
   { apply not_true_is_false. intros C. apply Qlt_bool_iff in C. lra. }
   assert (A : construct (random_design (VInt 5) [("min_spacing_between_visits", VFloat ms)]) =
               Ok (good_params (VInt 5) [("min_spacing_between_visits", VFloat ms)])).
   { unfold construct, validate, check_params. cbn. rewrite E. cbn. reflexivity. }
-  split; [eexists; exact A|].
-  unfold sim, simulate_outcome. rewrite A. cbn -[precision_of gen_rounding_options].
-  apply precision_none_gen in H1. rewrite H1. reflexivity.
+  split; [eexists; exact A|]. split; [|intros H; rewrite tie_precision; now apply precision_finest_gen].
+  unfold sim. change gen_precision_init with (Some 3%Z). apply simulate_ok_iff.
+  eexists. split; [exact A|]. exists 5%Z. repeat split; try reflexivity; try lia. discriminate.
 Qed.
+
+(** ages are rounded to the documented precision for EVERY spacing (also < 0.001, where it is 3 decimals): the precision
+    exists, lies in 0..3, every requested visit is present at its age rounded to that precision (nearest multiple of
+    10^-p, exactly representable), and each individual's ages are strictly increasing *)
+Lemma ages_rounded_every_spacing (ms : Q) :
+  exists p, gen_precision ms = Some p /\ (0 <= p <= 3)%Z /\
+    (ms < (1152921504606847 # 1152921504606846976) -> p = 3%Z) /\
+    forall (id : string) (l : list (string * Q * list Q)),
+      Sorted.StronglySorted Z.lt (ages_of p id l) /\
+      forall t v, In (id, t, v) l ->
+        In (age_key p t) (ages_of p id l) /\ Qabs (inject_Z (age_key p t) - t * pow10 p) <= 1 # 2 /\
+        age_of p (age_key p t) * pow10 p == inject_Z (age_key p t).
+Proof.
+  destruct (precision_total_gen ms) as (p & E & Hp). exists p. rewrite tie_precision.
+  split; [exact E|]. split; [exact Hp|]. split.
+  - intros H. apply precision_finest_gen in H. congruence.
+  - intros id l. split; [apply ages_unique_increasing|]. intros t v H.
+    split; [now apply (ages_complete p id l t v)|]. split; [apply age_key_near | apply age_of_scaled; lia].
+Qed.
+
+(** an accepted design completes exactly when its stored parameters are [runnable_core]: no condition on the spacing is left *)
+Lemma sim_ok_iff m d : sim m d = Ok tt <-> exists ps, construct d = Ok ps /\ runnable_core m (d_features d) ps.
+Proof. unfold sim. change gen_precision_init with (Some 3%Z). apply simulate_ok_iff. Qed.
+
+Lemma run_ok_iff_gen m vt feats ps :
+  run_outcome gen_rounding_options gen_precision_init gen_default_spacing m vt feats ps = Ok tt <->
+  runnable gen_default_spacing m vt feats ps.
+Proof. change gen_precision_init with (Some 3%Z). apply run_ok_iff. Qed.
 
 (** further accepted designs on which the run raises (each replayed on the implementation) *)
 Lemma accepted_crash_families :
